@@ -2,6 +2,7 @@ package grammar
 
 import (
 	"go/ast"
+	"go/token"
 	"go/types"
 	"sort"
 	"strings"
@@ -431,4 +432,230 @@ func (e *Extractor) deadLit(info *types.Info, lit *ast.FuncLit) bool {
 		return dead
 	})
 	return dead
+}
+
+// streamFreeTable: the function-typed local v is defined once, by a lookup
+// `v := table[k]` / `v, ok := table[k]` in a package-level map, slice or array
+// that is initialised with a composite literal and never written elsewhere in
+// its package, and no entry of the table can touch the stream: entries are
+// function literals at package level (they capture no local) that neither call
+// a primitive/inlinable helper nor take or mention a carrier, or declared
+// functions without carrier parameters. (Table-driven dispatch of pure
+// per-element conversions.)
+func (e *Extractor) streamFreeTable(info *types.Info, v *types.Var) bool {
+	var pkgSyntax []*ast.File
+	for _, pk := range e.C.Program.Pkgs {
+		if pk.TypesInfo == info {
+			pkgSyntax = pk.Syntax
+		}
+	}
+	if pkgSyntax == nil {
+		return false
+	}
+	// the single definition of v
+	var idx *ast.IndexExpr
+	defs := 0
+	for _, f := range pkgSyntax {
+		if f.Pos() > v.Pos() || v.Pos() >= f.End() {
+			continue
+		}
+		ast.Inspect(f, func(n ast.Node) bool {
+			as, ok := n.(*ast.AssignStmt)
+			if !ok {
+				return true
+			}
+			for i, l := range as.Lhs {
+				id, ok := ast.Unparen(l).(*ast.Ident)
+				if !ok || (info.Defs[id] != v && info.Uses[id] != v) {
+					continue
+				}
+				defs++
+				if i == 0 && len(as.Rhs) == 1 {
+					idx, _ = ast.Unparen(as.Rhs[0]).(*ast.IndexExpr)
+				}
+			}
+			return true
+		})
+	}
+	if defs != 1 || idx == nil {
+		return false
+	}
+	tid, ok := ast.Unparen(idx.X).(*ast.Ident)
+	if !ok {
+		return false
+	}
+	table, ok := info.Uses[tid].(*types.Var)
+	if !ok || table.Pkg() == nil || table.Parent() != table.Pkg().Scope() {
+		return false
+	}
+	lit := e.tableLiteral(info, table)
+	if lit == nil || len(lit.Elts) == 0 {
+		return false
+	}
+	noCarrier := func(sig *types.Signature) bool {
+		if e.S.Carrier == nil {
+			return true
+		}
+		for i := 0; i < sig.Params().Len(); i++ {
+			if e.S.Carrier(sig.Params().At(i).Type()) {
+				return false
+			}
+		}
+		return true
+	}
+	for _, el := range lit.Elts {
+		val := el
+		if kv, ok := el.(*ast.KeyValueExpr); ok {
+			val = kv.Value
+		}
+		switch x := ast.Unparen(val).(type) {
+		case *ast.FuncLit:
+			sig, _ := info.TypeOf(x).(*types.Signature)
+			if sig == nil || !noCarrier(sig) {
+				return false
+			}
+			before := len(e.Undecided)
+			saveStrict := e.S.StrictLits
+			e.S.StrictLits = true
+			e.strictLit(info, x)
+			e.S.StrictLits = saveStrict
+			if len(e.Undecided) != before {
+				e.Undecided = e.Undecided[:before]
+				return false
+			}
+		case *ast.Ident:
+			f, ok := info.Uses[x].(*types.Func)
+			if !ok {
+				return false
+			}
+			sig := f.Type().(*types.Signature)
+			if sig.Recv() != nil || !noCarrier(sig) || e.S.Inline != nil && e.S.Inline(f) && e.funcTouchesStream(f) {
+				return false
+			}
+		default:
+			return false
+		}
+	}
+	return true
+}
+
+// funcTouchesStream: the declared function's body calls a primitive, an
+// inlinable helper or hands a carrier to something.
+func (e *Extractor) funcTouchesStream(f *types.Func) bool {
+	fn := e.C.FnOf(f)
+	if fn == nil || fn.Decl.Body == nil {
+		return true
+	}
+	lit := &ast.FuncLit{Type: fn.Decl.Type, Body: fn.Decl.Body}
+	before := len(e.Undecided)
+	e.strictLitForce(fn.Pkg.TypesInfo, lit)
+	hit := len(e.Undecided) != before
+	e.Undecided = e.Undecided[:before]
+	return hit
+}
+
+func (e *Extractor) strictLitForce(info *types.Info, lit *ast.FuncLit) {
+	// strictLit consults deadLit first, which needs a literal that exists in a file;
+	// a synthetic literal is simply not dead
+	e.strictLit(info, lit)
+}
+
+// tableLiteral returns the composite literal a package-level map, slice or
+// array variable is initialised with, provided nothing in its package writes
+// the variable, an element of it, takes its address or deletes from it.
+func (e *Extractor) tableLiteral(info *types.Info, table *types.Var) *ast.CompositeLit {
+	if table.Pkg() == nil || table.Parent() != table.Pkg().Scope() {
+		return nil
+	}
+	var pkgSyntax []*ast.File
+	for _, pk := range e.C.Program.Pkgs {
+		if pk.TypesInfo == info {
+			pkgSyntax = pk.Syntax
+		}
+	}
+	var lit *ast.CompositeLit
+	written := false
+	for _, f := range pkgSyntax {
+		ast.Inspect(f, func(n ast.Node) bool {
+			switch x := n.(type) {
+			case *ast.ValueSpec:
+				for i, nm := range x.Names {
+					if info.Defs[nm] == table && len(x.Values) == len(x.Names) {
+						lit, _ = ast.Unparen(x.Values[i]).(*ast.CompositeLit)
+					}
+				}
+			case *ast.AssignStmt:
+				for _, l := range x.Lhs {
+					base := ast.Unparen(l)
+					if ix, ok := base.(*ast.IndexExpr); ok {
+						base = ast.Unparen(ix.X)
+					}
+					if id, ok := base.(*ast.Ident); ok && info.Uses[id] == table {
+						written = true
+					}
+				}
+			case *ast.UnaryExpr:
+				if id, ok := ast.Unparen(x.X).(*ast.Ident); ok && x.Op == token.AND && info.Uses[id] == table {
+					written = true
+				}
+			case *ast.CallExpr:
+				if b, ok := core.Callee(info, x).(*types.Builtin); ok && b.Name() == "delete" && len(x.Args) > 0 {
+					if id, ok := ast.Unparen(x.Args[0]).(*ast.Ident); ok && info.Uses[id] == table {
+						written = true
+					}
+				}
+			}
+			return !written
+		})
+	}
+	if written {
+		return nil
+	}
+	return lit
+}
+
+// tableLookup evaluates `table[k]` for a key whose value is known: the element
+// expression and whether the key is present. ok is false when the table is not
+// a constant package-level table or the key is not known.
+func (e *Extractor) tableLookup(info *types.Info, ix *ast.IndexExpr) (val ast.Expr, found bool, ok bool) {
+	tid, isId := ast.Unparen(ix.X).(*ast.Ident)
+	if !isId {
+		return nil, false, false
+	}
+	table, isVar := info.Uses[tid].(*types.Var)
+	if !isVar {
+		return nil, false, false
+	}
+	k, known := e.evalDepth(info, ix.Index, 1)
+	if !known {
+		return nil, false, false
+	}
+	lit := e.tableLiteral(info, table)
+	if lit == nil {
+		return nil, false, false
+	}
+	_, isMap := info.TypeOf(lit).Underlying().(*types.Map)
+	pos := int64(0)
+	for _, el := range lit.Elts {
+		kv, isKV := el.(*ast.KeyValueExpr)
+		if !isKV {
+			if isMap {
+				return nil, false, false
+			}
+			if pos == k {
+				return el, true, true
+			}
+			pos++
+			continue
+		}
+		kk, isConst := core.IntConst(info, kv.Key)
+		if !isConst {
+			return nil, false, false
+		}
+		if kk == k {
+			return kv.Value, true, true
+		}
+		pos = kk + 1
+	}
+	return nil, false, true
 }
